@@ -392,7 +392,8 @@ func replay(c *mcx.Ctx, raw json.RawMessage) (string, string) {
 func init() {
 	mcx.Register(&mcx.Driver{
 		ID: "C06", Run: run, Replay: replay, Workers: 8,
-		Rule: "full product: expiry catalogue (instants from T-50y to year 9999 in the exact schema incl. T-1s/T/T+1s; the same instants as RFC3339 with offsets, lower-case z, no suffix, space separator, date only, fractional, RFC1123, Unix seconds, padded; one-digit hour earlier today / yesterday / tomorrow; impossible dates; 5-digit/zero years; empty/blank/arbitrary) " +
+		Rule: "also: every catalogue entry with the signed layout written to a file and loaded back before verification; " +
+			"full product: expiry catalogue (instants from T-50y to year 9999 in the exact schema incl. T-1s/T/T+1s; the same instants as RFC3339 with offsets, lower-case z, no suffix, space separator, date only, fractional, RFC1123, Unix seconds, padded; one-digit hour earlier today / yesterday / tomorrow; impossible dates; 5-digit/zero years; empty/blank/arbitrary) " +
 			"each also with the process (time.Local and the clock's time value) in UTC-8 and UTC+9 with a non-empty parameter dictionary, with a layout that has neither steps nor inspections, and with a summary name passed; plus expiry histories in one process: every ordered pair of catalogue entries as three successive verifications (first, second, second again; quick: legacy wrapper and InTotoVerify, thorough: all four) " +
 			"x {legacy, DSSE} x {InTotoVerify, InTotoVerifyWithDirectory} on an otherwise accepting 2-step chain with one marker inspection, with the package clock owned (fixed at T=2030-06-15T12:00:00Z); plus every sequence of 2 (thorough: 3) verifications in one process with the clock at {T-1h, T, T+1h} and expiries in between; plus four real-clock cases a day or more away from now. " +
 			"A case is distinct by construction; non-trivial = the reference decides it (expiry equal to now and fractional seconds are don't-care). states = cases, transitions = verifications.",
